@@ -411,7 +411,15 @@ impl ExpandedField<'_> {
         let is_required = self
             .field_type_qualifiers
             .contains(&GraphqlTypeQualifier::Required);
-        let id_deserialize_with = if is_id && is_required {
+        let is_list = self
+            .field_type_qualifiers
+            .contains(&GraphqlTypeQualifier::List);
+        let id_deserialize_with = if is_id && is_list {
+            // `deserialize_id` and `deserialize_option_id` only fit `ID!` and `ID`.
+            Some(
+                quote!(#[serde(deserialize_with = "graphql_client::serde_with::deserialize_nested_id")]),
+            )
+        } else if is_id && is_required {
             Some(quote!(#[serde(deserialize_with = "graphql_client::serde_with::deserialize_id")]))
         } else if is_id {
             Some(
